@@ -263,7 +263,8 @@ def case_strategy(draw: Any) -> Any:
     vec = [draw(_coef()) for _ in range(3)]
     sv = [draw(_nz_rat()), draw(_nz_rat())]
     return {"sys": system, "q": q, "vec": vec, "sv": sv, "eq": draw(st.sampled_from((True, False, False, False, False, False))),
-        "container": draw(st.sampled_from(("list", "list", "tuple", "generator", "map")))}
+        "container": draw(st.sampled_from(("list", "list", "tuple", "generator", "map"))),
+        "fscale": draw(st.sampled_from((None, None, -60, -50, -70, 40, 0)))}
 
 
 def valid(case: dict[str, Any]) -> bool:
@@ -669,6 +670,38 @@ def _judge(case: dict[str, Any]) -> list[tuple[str, str]]:
                         f"convert_vector {A}->{B}->{C} of {case['vec']} at {case['q']}: Cartesian components {_show(got)} instead of {_show(want_cart)}")
 
             guarded(f"vector-chain:{A}->{typ(B)}->{C}", vchain)
+    # ---- (7) floats at a generated scale: conversions are linear in the vector and homogeneous in the lengths ----------
+    fs = case.get("fscale")
+    if fs is not None:
+        sc = sympy.Float(2.0**fs)  # dyadic: the scaled inputs are exact binary numbers
+        len_slots = {"cart": (0, 1, 2), "cyl": (0, 2), "sph": (0,)}
+
+        def fvector(B: str) -> None:
+            # convert_vector(s * v) == s * convert_vector(v), components read in the frame of B
+            vs = sum((eA[i] * (sympy.Float(float(coef_val[i])) * sc) for i in range(3)), sympy.S.Zero)
+            got = cart_components(convert_vector(vs, pA, S[B]), B)
+            want = [to_mp(sympy.Float(float(w)) * sc) for w in want_cart]
+            size = max(abs(w) for w in want)
+            if size == 0:
+                return
+            if any(abs(g - w) > mpf("1e-11") * size for g, w in zip(got, want)):
+                bad(f"float-scale:vector:{A}->{typ(B)}", f"convert_vector of the float vector {case['vec']} * 2^{fs} at {case['q']}: Cartesian "
+                    f"components {_show(got)} instead of {_show(want)}")
+
+        def fpoint(B: str) -> None:
+            qs = [sympy.Float(float(to_mp(v))) * (sc if i in len_slots[A] else 1) for i, v in enumerate(exact[A])]
+            pB = convert_point(AppliedPoint(qs, S[A]), S[B])
+            got = X_of(typ(B), [to_mp(pB.coordinates[x]) for x in pB.system.base_scalars])
+            want = [w * to_mp(sc) for w in XA]
+            size = max(abs(w) for w in want)
+            if size and any(abs(g - w) > mpf("1e-11") * size for g, w in zip(got, want)):
+                bad(f"float-scale:point:{A}->{typ(B)}", f"convert_point of {case['q']} with lengths * 2^{fs} (floats): Cartesian position "
+                    f"{_show(got)} instead of {_show(want)}")
+
+        for B in TYPES:
+            if B != A:
+                guarded(f"float-scale:vector:{A}->{B}", lambda B=B: fvector(B))
+                guarded(f"float-scale:point:{A}->{B}", lambda B=B: fpoint(B))
     for flag in ("__equals_true__", "__equals_false_on_equal_points__"):
         if flag in seen:
             out.append((flag, ""))
